@@ -63,7 +63,7 @@ CLAIMS['C13'] = dict(
           "for all histories in the bound, and recorded histories of real files (every grouping of records over 3 transcripts in "
           "2 files, indexGVF, edits, re-open) must be behaviours of it with the same pointer table."),
     note=("Attribute values contain no quote, semicolon, equals sign or tab (as every moPepGen parser emits them); per-transcript "
-          "record sets are read through the pool's pointers (pointer.load), not through the variant-series conversion."),
+          "record sets are read through the pool's pointers (pointer.load) in the history traces and, on real references with records of every kind, through the variant-series conversion pool[tx] (GvfSeriesTrace: handed-out records = distinct record texts of a linear scan)."),
     technique="TLA+ format definition + state machine; TLC validation of recorded round trips and file histories", ref='6 C13')
 CLAIMS['C01'] = dict(
     text=("spec/Variants.tla + Peptides.tla define, with no graph, the set C01 requires: for every compatible haplotype of the usable variants (adjacent same-class pairs merged as --max-adjacent-as-mnv does; alternative-splicing insertion / deletion / substitution records in the replace-[start,end)-by-alt form that Rmats.tla proves equal to their denotation), apply it to the transcript, translate from every permitted start to the stop (annotated Sec read as U, Sec-terminated forms and W>F images when those flags are on), digest under the case's rule/exception/miscleavage/limits incl. M-removed start peptides, and subtract the digest of the unmodified transcript (incl. its Sec-terminated / W>F forms when switched on) and the canonical pool. CallVariantOracle has TLC compute that set for each generated input and compare it with the FASTA the real callVariant wrote (Complete subset of output). 570 / 14 440 inputs over 19 mode slots: random references (both strands, coding/non-coding, multi-exon, NF tags, Sec, several genes), 1-5 small variants per transcript incl. dense clusters, adjacent and multi-allelic sites, variants aimed at stop codons (SNV, merged pair, MNV record, indels), alt-translation flags, Gly/Ala-rich proteins with binding mass limits, AS records, 13 / 35 enzymes, collapse knobs; complexity limits off."),
